@@ -2597,3 +2597,159 @@ Proof.
       * intros c1 [<-|[]]. auto.
       * intros c1. rewrite NB. unfold m13_step. rewrite Hg. cbn. auto.
 Qed.
+
+(** ** the end of a step *)
+Lemma cr_replace_main : forall st st' m k1,
+  ShInv st -> CRel PNone st m -> tcont (thr st' main) = k1 -> nrel (tcont (thr st main)) k1 ->
+  (forall u, u <> main -> tcont (thr st' u) = tcont (thr st u)) ->
+  (forall u, tcur (thr st' u) = tcur (thr st u) /\ tret (thr st' u) = tret (thr st u)) -> chs st' = chs st ->
+  CRel PNone st' m.
+Proof.
+  intros st st' m k1 S R Hc' N Ho Hf Hch.
+  destruct (nrel_cases _ _ N) as [E|[i [r [Ek [Hmo Hin]]]]].
+  { apply (cr_steq _ st); auto. intro u. destruct (Hf u) as [A B]. split; [exact A|]. split; [|intros _; exact B].
+    destruct (Nat.eq_dec u main) as [->|Hu]; [rewrite Hc'; exact E|apply Ho; exact Hu]. }
+  assert (NoC : forall c, tcur (thr st main) <> Some (CClosed c)).
+  { intros c Hu. destruct (sh_closed st S main c Hu) as [[_ [E|[E|[b E]]]]|[E _]]; rewrite Ek in E; try discriminate E;
+      inversion E; subst i; discriminate Hmo. }
+  assert (NoD : forall c, tcur (thr st main) <> Some (CCDrop c)).
+  { intros c Hu. destruct (sh_drop st S main c Hu) as [_ [E|[_ [_ [E|[_ E]]]]]]; try (rewrite Ek in E; discriminate E).
+    - rewrite Ek in E. inversion E; subst i. discriminate Hmo.
+    - pose proof (E i ltac:(rewrite Ek; left; reflexivity)) as D. destruct i; cbn in D; try contradiction; try discriminate Hmo.
+      + destruct a; cbn in D; try contradiction. discriminate Hmo.
+      + destruct a; cbn in D; try contradiction; discriminate Hmo. }
+  assert (T0 : forall c, transit st c = []).
+  { intro c. unfold transit. rewrite Ek. cbn [flat_map]. rewrite (sh_ufwd_head st S main i r c Ek), app_nil_r.
+    destruct i; try reflexivity. destruct a; try reflexivity; discriminate Hmo. }
+  assert (T1 : forall c, transit st' c = []).
+  { intro c. unfold transit. rewrite Hc'. apply flat_map_nil. intros j Hj. destruct (Hin j Hj) as [X|X]; [|apply norm_new_ufwd; exact X].
+    pose proof (sh_ufwd_head st S main i r c Ek) as Y. apply (proj1 (flat_map_nil _ _ _ _) Y). exact X. }
+  apply (cr_frame_s st st' m m R (m13_same_refl m)).
+  - intro c. rewrite Hch. reflexivity.
+  - intros c. rewrite Hch, T0, T1. auto.
+  - intros c. rewrite Hch. auto.
+  - intros c E1 E2. rewrite Hch in E2. congruence.
+  - intro u. apply Hf.
+  - intros u c x _. destruct (Hf u) as [_ B]. rewrite B. auto.
+  - intros u c b _. destruct (Hf u) as [_ B]. rewrite B. auto.
+  - intros u m0 c Hu Hj. left. exists m0. destruct (Nat.eq_dec u main) as [->|Nu]; [exfalso; exact (NoD _ Hu)|rewrite (Ho u Nu); exact Hj].
+  - intros u c m0 b Hu Hj. left. exists m0. destruct (Nat.eq_dec u main) as [->|Nu]; [exfalso; exact (NoC _ Hu)|rewrite (Ho u Nu) in Hj; exact Hj].
+Qed.
+
+Lemma settle_C : forall st ms t ev done st' ev' p,
+  ShInv st -> CInv (core st) -> CRel p st ms -> NoDup (map sk (m13_sends ms)) -> BRel st (m13_b ms) -> (t < nthr st)%nat ->
+  (forall j, In j (tfinal (thr st t)) -> finok j) ->
+  (done = None -> p = PNone \/ exists c x, p = PAcc t c x) ->
+  (forall v, done = Some v ->
+     tcont (thr st t) = [] /\ exists c, tcur (thr st t) = Some c /\ (chan_cmd c -> v = RBad) /\
+                                  p = pend_begin t c (Some v) /\ tret (thr st t) = RUnit) ->
+  settle st t ev done = (st', ev') ->
+  exists tail, ev' = ev ++ tail /\ CRel PNone st' (fold_left m13_step (evs t tail) ms).
+Proof.
+  intros st ms t ev done st' ev' p S I R Nd B Ht Hfin HdN HdS H. unfold settle in H.
+  destruct (norm (2 * (cont_size (tcont (th st t)) + length (tacc (th st t))) + 2) (sl st) (tacc (th st t)) (tcont (th st t)) ev)
+    as [[[s1 acc1] k1] ev1] eqn:En.
+  cbn zeta in H.
+  destruct (norm_dels _ _ _ _ _ _ _ _ _ En) as [dels [Edels Hdels]].
+  pose proof (norm_nrel _ _ _ _ _ _ _ _ _ En) as N.
+  assert (Pd : forall e, In e dels -> c13_plain e) by (intros e He; destruct (Hdels e He) as [x [h ->]]; exact Logic.I).
+  assert (Pd' : forall e, In e dels -> plain e) by (intros e He; destruct (Hdels e He) as [x [h ->]]; exact Logic.I).
+  set (m1 := fold_left m13_step (evs t dels) ms).
+  assert (Sm : m13_same ms m1) by (apply m13_plain_fold; exact Pd).
+  assert (Nd1 : NoDup (map sk (m13_sends m1))) by (destruct Sm as [X _ _ _ _ _ _]; rewrite X; exact Nd).
+  assert (Gt1 : get_tid t (b_cur (m13_b m1)) = tcur (thr st t)).
+  { unfold m1. rewrite m13_b_fold. destruct (mb_fold_plain t dels (m13_b ms) Pd') as [A1 _]. cbn zeta in A1. rewrite A1.
+    apply (br_cur st _ B t Ht). }
+  set (st1 := set_sl (upd_th st t (set_tacc (set_tcont (th st t) k1) acc1)) s1) in *.
+  assert (T1 : tcont (thr st1 t) = k1) by (unfold st1; cbn -[Nat.eqb]; unfold updN, th; rewrite Nat.eqb_refl; reflexivity).
+  assert (Th1 : forall u, tcur (thr st1 u) = tcur (thr st u) /\ tret (thr st1 u) = tret (thr st u) /\ tfinal (thr st1 u) = tfinal (thr st u)).
+  { intro u. unfold st1. cbn -[Nat.eqb]. unfold updN, th. destruct (Nat.eqb_spec u t) as [E|E]; [rewrite E|]; auto. }
+  assert (To1 : forall u, u <> t -> tcont (thr st1 u) = tcont (thr st u)).
+  { intros u Hu. unfold st1. cbn -[Nat.eqb]. unfold updN, th. destruct (Nat.eqb_spec u t); [congruence|reflexivity]. }
+  assert (R1 : CRel p st1 m1).
+  { apply (cr_msame _ _ ms); [|exact Sm].
+    destruct (tcont (thr st t)) as [|i0 r0] eqn:Ek.
+    - unfold th in N. rewrite Ek in N. apply nrel_nil in N.
+      apply (cr_steq _ st); [reflexivity| |exact R]. intro u. destruct (Th1 u) as [A [B0 _]]. split; [exact A|]. split; [|intros _; exact B0].
+      destruct (Nat.eq_dec u t) as [->|Hu]; [rewrite T1, Ek; exact N|apply To1; exact Hu].
+    - assert (Pn : p = PNone).
+      { destruct p as [|u c x|u c]; [reflexivity| |].
+        - destruct done as [v|]; [destruct (HdS v eq_refl) as [X _]; first [discriminate X|rewrite Ek in X; discriminate X]|].
+          destruct (HdN eq_refl) as [X|[c1 [x1 X]]]; [discriminate X|]. inversion X; subst u c1 x1.
+          destruct (r_pacc _ st ms R t c x eq_refl) as [_ [X2 _]]. first [discriminate X2|rewrite Ek in X2; discriminate X2].
+        - destruct done as [v|]; [destruct (HdS v eq_refl) as [X _]; first [discriminate X|rewrite Ek in X; discriminate X]|].
+          destruct (HdN eq_refl) as [X|[c1 [x1 X]]]; discriminate X. }
+      subst p. destruct (Nat.eq_dec t main) as [->|Hn].
+      + apply (cr_replace_main st st1 ms k1 S R T1); [unfold th in N; exact N|exact To1|intro u; destruct (Th1 u) as [A [B0 _]]; auto|reflexivity].
+      + rewrite norm_id in En; [|intros j Hj; apply (i_mainonly _ I t Hn); exact Hj].
+        injection En as _ _ E3 _. apply (cr_steq _ st); [reflexivity| |exact R]. intro u. destruct (Th1 u) as [A [B0 _]]. split; [exact A|]. split; [|intros _; exact B0].
+        destruct (Nat.eq_dec u t) as [->|Hu]; [rewrite T1; symmetry; exact E3|apply To1; exact Hu]. }
+  assert (S1 : ShInv st1).
+  { destruct (Nat.eq_dec t main) as [->|Hn].
+    - apply (sh_replace_main st st1 k1 S T1); [unfold th in N; exact N|exact To1|intro u; destruct (Th1 u) as [A [B0 _]]; auto|reflexivity].
+    - rewrite norm_id in En; [|intros j Hj; apply (i_mainonly _ I t Hn); exact Hj].
+      injection En as _ _ E3 _. apply (sh_same st); auto. intro u. destruct (Th1 u) as [A [B0 _]]. split; [|auto].
+      destruct (Nat.eq_dec u t) as [->|Hu]; [rewrite T1; symmetry; exact E3|apply To1; exact Hu]. }
+  assert (Hk1 : done <> None -> k1 = []).
+  { intro D. destruct done as [v|]; [|congruence]. destruct (HdS v eq_refl) as [X _]. unfold th in N. rewrite X in N. apply nrel_nil. exact N. }
+  clearbody st1.
+  match type of H with (let '(st2, ev2) := ?E in _) = _ => destruct E as [st2 ev2] eqn:E2 end.
+  assert (R2 : exists tl2, ev2 = ev1 ++ tl2 /\ CRel PNone st2 (fold_left m13_step (evs t tl2) m1) /\
+                           tfinal (thr st2 t) = tfinal (thr st t) /\ (forall e, In e tl2 -> exists v, e = ERet v)).
+  { destruct done as [v|].
+    - inversion E2; subst st2 ev2. exists [ERet v]. split; [reflexivity|]. split; [|split; [rewrite <- (proj2 (proj2 (Th1 t))); thr_simpl|intros e [<-|[]]; eauto]].
+      destruct (HdS v eq_refl) as [_ [c [Hu [Hv [Hp Hr]]]]]. cbn [evs map fold_left].
+      apply (cr_ret p st1 m1 t c v _ S1 R1 Nd1).
+      + rewrite (proj1 (Th1 t)). exact Hu.
+      + rewrite T1. apply Hk1. discriminate.
+      + rewrite Gt1. exact Hu.
+      + right. split; [exact Hv|]. split; [exact Hp|]. rewrite (proj1 (proj2 (Th1 t))). exact Hr.
+      + thr_simpl.
+      + thr_simpl.
+      + cbn. unfold updN, th. rewrite Nat.eqb_refl. cbn. rewrite T1. apply Hk1. discriminate.
+      + reflexivity.
+    - destruct k1.
+      + destruct (tcur (th st1 t)) as [c|] eqn:Ec.
+        * inversion E2; subst st2 ev2. exists [ERet (tret (th st1 t))]. split; [reflexivity|].
+          split; [|split; [rewrite <- (proj2 (proj2 (Th1 t))); destruct c; thr_simpl|intros e [<-|[]]; eauto]].
+          cbn [evs map fold_left]. unfold th in Ec.
+          apply (cr_ret p st1 m1 t c _ _ S1 R1 Nd1 Ec T1).
+          -- rewrite Gt1, <- (proj1 (Th1 t)). exact Ec.
+          -- left. split; [reflexivity|]. apply HdN. reflexivity.
+          -- destruct c; thr_simpl.
+          -- destruct c; thr_simpl.
+          -- destruct c; cbn; unfold updN, th; rewrite Nat.eqb_refl; cbn; exact T1.
+          -- destruct c; reflexivity.
+        * inversion E2; subst st2 ev2. exists []. rewrite app_nil_r. split; [reflexivity|]. cbn.
+          assert (Pn : p = PNone).
+          { destruct (HdN eq_refl) as [X|[c1 [x1 X]]]; [exact X|]. destruct (r_pacc _ st1 m1 R1 t c1 x1 X) as [A _]. unfold th in Ec. congruence. }
+          subst p. split; [exact R1|]. split; [apply Th1|intros e []].
+      + inversion E2; subst st2 ev2. exists []. rewrite app_nil_r. split; [reflexivity|]. cbn.
+        assert (Pn : p = PNone).
+        { destruct (HdN eq_refl) as [X|[c1 [x1 X]]]; [exact X|]. destruct (r_pacc _ st1 m1 R1 t c1 x1 X) as [_ [A _]]. rewrite T1 in A. discriminate A. }
+        subst p. split; [exact R1|]. split; [apply Th1|intros e []]. }
+  destruct R2 as [tl2 [E2' [R2 [F2 Hret2]]]].
+  set (m2 := fold_left m13_step (evs t tl2) m1) in *.
+  assert (Fin : exists tl3, ev' = ev2 ++ tl3 /\ CRel PNone st' (fold_left m13_step (evs t tl3) m2)).
+  { destruct (tcont (th st2 t)) eqn:Ec; [|inversion H; subst; exists []; rewrite app_nil_r; auto].
+    destruct (tscript (th st2 t)) eqn:Es; [|inversion H; subst; exists []; rewrite app_nil_r; auto].
+    destruct (tcur (th st2 t)) eqn:Eu; [inversion H; subst; exists []; rewrite app_nil_r; auto|].
+    destruct (tfinal (th st2 t)) eqn:Ef; inversion H; subst st' ev'; clear H.
+    - destruct (is_main t); [exists []; rewrite app_nil_r; auto|].
+      exists [EExit]. split; [reflexivity|]. eapply cr_msame; [exact R2|apply m13_plain_fold; cr_pl].
+    - exists []. rewrite app_nil_r. split; [reflexivity|]. cbn [evs map fold_left]. unfold th in *.
+      assert (Hc0 : tcont (thr st2 t) = [] ++ []) by exact Ec.
+      assert (Hq : forall j, In j (i :: l) -> cr_quiet j).
+      { intros j Hj. rewrite <- Ef, F2 in Hj. apply Hfin in Hj. destruct j; cbn in Hj; try contradiction.
+        destruct a; cbn in Hj; try contradiction; (split; [intro; reflexivity|intros; discriminate]). }
+      replace m2 with (fold_left m13_step (evs t []) m2) by reflexivity.
+      apply (cr_triv st2 _ m2 t (@nil instr) (@nil instr) (i :: l));
+        [assumption|thr_simpl|intros u _; thr_simpl|thr_simpl|exact Hc0
+        |cbn -[Nat.eqb]; unfold updN, th; rewrite Nat.eqb_refl; cbn; rewrite app_nil_r; reflexivity
+        |cr_chs|intros e []|intros j []|exact Hq|].
+      intros c m0 b Hu _. congruence. }
+  destruct Fin as [tl3 [E3 R3]].
+  exists (dels ++ tl2 ++ tl3). split.
+  - rewrite E3, E2', Edels. rewrite <- !app_assoc. reflexivity.
+  - rewrite !evs_app, !fold_left_app. exact R3.
+Qed.
